@@ -8,7 +8,8 @@ W=$(mktemp -d /tmp/mut.XXXXXX)
 git -C /repo worktree add -q --detach "$W" HEAD >/dev/null 2>&1 || { echo "worktree failed"; exit 3; }
 cleanup() { git -C /repo worktree remove --force "$W" >/dev/null 2>&1; rm -rf "$W"; }
 trap cleanup EXIT
-# carry over uncommitted contract files of /repo (hooks) if any
+# use the current contract files (mirror) in the scratch tree
+(cd /verif/contracts && for f in $(find github.com/keep-network/keep-core -name zz_verif_contracts.go); do cp "$f" "$W/${f#github.com/keep-network/keep-core/}"; done)
 if [ "$1" = "-p" ]; then
   perl -0pi -e "$2" "$W/$3" || exit 3
   (cd "$W" && git diff --stat | tail -1)
